@@ -25,7 +25,7 @@ def quiet():
 def extreme_losses(rng, n):
     base = [rng.random() for _ in range(n)]
     for i in rng.sample(range(n), min(n, rng.randint(1, 4))):
-        base[i] = rng.choice([float("inf"), -float("inf"), 1e40, -1e40, 3.5e38, -3.5e38, 1e300, 3.4028235e38])
+        base[i] = rng.choice([float("inf"), -float("inf"), 1e40, -1e40, 3.5e38, -3.5e38, 1e300, 3.4028235e38, float(np.finfo(np.float64).max), -float(np.finfo(np.float64).max)])
     return np.array(base)
 
 
@@ -225,6 +225,12 @@ def run(chk: Check):
         smp = BestBatchSampler(bs, random_state=0, a=rng.choice([1.0, 3.0, 0.5]), b=rng.choice([1.0, 2.0]), perturbation_range=rng_range)
         g = install(smp, RecGen(rng.randrange(10 ** 6)))
         pts, losses = gen_history(rng, sp, rng.randint(bs, 12))
+        if rng.random() < 0.4:
+            # extreme losses, and the boundary between "infinite" and "the largest finite number": a loss of exactly finfo.max is lower than +inf
+            fmax = float(np.finfo(np.float64).max)
+            pool = [float("inf"), fmax, float("inf"), fmax, -fmax, -float("inf"), 1e300, 1.0, 2.0]
+            losses = np.array([rng.choice(pool) for _ in range(len(pts))])
+            chk.count("bestbatch:extreme_losses")
         with recording_snaps() as rec, quiet():
             out = smp.sample_batch(bs, sp, pts, losses)
         log = g.log
